@@ -12,6 +12,7 @@ package frame
 
 //@ type FrameV1
 //@   invariant layout [C02,C13,C17]: self.data != nil ==> layout(self.data, self.messageIndex, self.authIndex, self.appendixIndex)
+//@   invariant offset-range [C13]: self.data != nil ==> 0 <= self.psDataOffset && self.psDataOffset <= 65536
 //@   invariant pooled [C17]: self.data != nil && self.pooledSlice != nil ==> base(self.data) == base(self.pooledSlice) && self.psDataOffset >= 0 && off(self.data) == off(self.pooledSlice) + self.psDataOffset && len(self.pooledSlice) == cap(self.pooledSlice) && self.psDataOffset + cap(self.data) <= len(self.pooledSlice)
 
 //@ pool Builder.frameV1Pool
@@ -20,7 +21,7 @@ package frame
 //@   invariant owner: x.builder == owner
 
 //@ func Builder.ParseFrameV1
-//@   requires b != nil
+//@   requires b != nil && 0 <= dataOffset && dataOffset <= 65536
 //@   requires pooledSlice != nil ==> base(data) == base(pooledSlice) && dataOffset >= 0 && off(data) == off(pooledSlice) + dataOffset && len(pooledSlice) == cap(pooledSlice) && dataOffset + cap(data) <= len(pooledSlice)
 //@   ensures wf [C02,C13]: result1 == nil ==> result0 != nil && result0.data != nil && len(result0.data) == len(data) && base(result0.data) == base(data) && off(result0.data) == off(data)
 //@   ensures err-nil-frame: result1 != nil ==> result0 == nil
@@ -61,7 +62,9 @@ package frame
 //@   modifies pooledSlice[0:cap(pooledSlice)]
 //@   ensures wiped [C17]: zeroed(pooledSlice)
 
+// ReturnToPool ends the life of the frame: it does not need (and at the link writer does not get) a well-formed frame.
 //@ func FrameV1.ReturnToPool
+//@   option noinv
 //@   requires f.builder == nil || f.dblReturnCheck == 0
 //@   ensures released [C13,C17]: old(f.builder) != nil ==> f.dblReturnCheck == 1 && f.data == nil && f.pooledSlice == nil
 
@@ -192,3 +195,14 @@ package frame
 // signed frames: [0,authIndex) is the signed message and [authIndex,appendixIndex) the signature;
 // encrypted frames: [0,messageIndex+2) is associated data, [messageIndex+2,authIndex) ciphertext, [authIndex,appendixIndex) the MAC.
 //@ lemma sealed-bytes-covered: forall mi int, ai int, xi int, i int :: (49 <= mi && mi + 2 <= ai && ai <= xi && 0 <= i && i < xi) ==> ((0 <= i && i < ai) || (ai <= i && i < xi)) && ((0 <= i && i < mi + 2) || (mi + 2 <= i && i < ai) || (ai <= i && i < xi))
+
+//@ func FrameV1.FrameDataWithMargins
+//@   requires live(f) && 0 <= offset && offset <= 65536 && 0 <= overhead && overhead <= 65536
+//@   modifies nothing
+//@   ensures whole-frame [C05]: result1 == nil ==> len(result0) == len(f.data) + offset + overhead && base(result0) == base(f.pooledSlice) && off(result0) == off(f.pooledSlice) + f.psDataOffset - offset && offset <= f.psDataOffset
+//@   ensures error-nil: result1 != nil ==> result0 == nil
+
+//@ func Builder.ParseFrame
+//@   requires b != nil && 0 <= dataOffset && dataOffset <= 65536
+//@   requires pooledSlice != nil ==> base(data) == base(pooledSlice) && dataOffset >= 0 && off(data) == off(pooledSlice) + dataOffset && len(pooledSlice) == cap(pooledSlice) && dataOffset + cap(data) <= len(pooledSlice)
+//@   ensures frame [C02,C13]: result1 == nil ==> nonnil(result0) && result0.data != nil && len(result0.data) == len(data) && base(result0.data) == base(data) && off(result0.data) == off(data) && result0.recvLink == nil
